@@ -22,6 +22,7 @@ import (
 	ma "github.com/multiformats/go-multiaddr"
 	mh "github.com/multiformats/go-multihash"
 
+	kaddht "github.com/libp2p/go-libp2p-kad-dht"
 	"github.com/libp2p/go-libp2p-kad-dht/internal/verif/vh"
 	"github.com/libp2p/go-libp2p-kad-dht/internal/verif/vsim"
 )
@@ -140,7 +141,7 @@ func vC03Exec(t *testing.T, c *vh.Case, sc vC03Scn, mode string, at time.Duratio
 	case "pre":
 		cancel()
 		run.Cancelled, run.CancelVT = true, run.Start
-	case "timed":
+	case "timed", "abandon":
 		tm := time.AfterFunc(at, func() {
 			run.CancelVT = time.Now()
 			run.Cancelled = true
@@ -167,11 +168,26 @@ func vC03Exec(t *testing.T, c *vh.Case, sc vC03Scn, mode string, at time.Duratio
 		case "FindPeer/unknown":
 			_, run.Err = d.FindPeer(ctx, vsim.PeerID(sc.NC.NS+"-nobody", 0))
 		case "GetValue":
-			_, run.Err = d.GetValue(ctx, sc.Key)
+			_, run.Err = d.GetValue(ctx, sc.Key, kaddht.Quorum(sc.Count))
 		case "SearchValue":
 			var ch <-chan []byte
-			ch, run.Err = d.SearchValue(ctx, sc.Key)
-			if run.Err == nil {
+			ch, run.Err = d.SearchValue(ctx, sc.Key, kaddht.Quorum(sc.Count))
+			if run.Err == nil && mode == "abandon" {
+				// a consumer that stops reading once its context is over (legal use of the API): whatever the
+				// search still wanted to hand over must be dropped, not waited for
+			abandonSV:
+				for {
+					select {
+					case _, ok := <-ch:
+						if !ok {
+							break abandonSV
+						}
+						run.Yielded++
+					case <-ctx.Done():
+						break abandonSV
+					}
+				}
+			} else if run.Err == nil {
 				for range ch {
 					run.Yielded++
 				}
@@ -181,8 +197,24 @@ func vC03Exec(t *testing.T, c *vh.Case, sc vC03Scn, mode string, at time.Duratio
 			ps, run.Err = d.FindProviders(ctx, sc.Cid)
 			run.Yielded = len(ps)
 		case "FindProvidersAsync":
-			for range d.FindProvidersAsync(ctx, sc.Cid, sc.Count) {
-				run.Yielded++
+			if mode == "abandon" {
+				pch := d.FindProvidersAsync(ctx, sc.Cid, sc.Count)
+			abandonFP:
+				for {
+					select {
+					case _, ok := <-pch:
+						if !ok {
+							break abandonFP
+						}
+						run.Yielded++
+					case <-ctx.Done():
+						break abandonFP
+					}
+				}
+			} else {
+				for range d.FindProvidersAsync(ctx, sc.Cid, sc.Count) {
+					run.Yielded++
+				}
 			}
 		case "PutValue":
 			run.Err = d.PutValue(ctx, sc.Key, vFrtVal(sc.Key, 5, time.Time{}, "mine"))
@@ -242,7 +274,7 @@ func vC03Exec(t *testing.T, c *vh.Case, sc vC03Scn, mode string, at time.Duratio
 
 func TestVerif_C03_fullrt(t *testing.T) {
 	vh.Run(t, vh.Spec{Prop: "C03", Unit: "fullrt", Quick: 400, Thorough: 15000, CostMs: 120,
-		Rule:    "FullRT over a simulated network (1-40 crawled peers; 0-100% failing: dead, request error, silent until the 10 s read timeout, 30 s late, dial failure, 20 s dial stall; 0-100% of the connections dropped after the crawl so that operations dial; K in {1,2,3,5,8,20}, success wait fraction in {0.1,0.3,0.5,1}, per-operation timeout 0.5/5 s, bulk parallelism 1/2/20); one operation per case out of GetClosestPeers, FindPeer (found / unknown), GetValue, SearchValue, FindProviders, FindProvidersAsync(count), PutValue, Provide, ProvideMany, PutMany (1-30 keys); run un-cancelled, then on fresh instances: cancelled before the call, with a deadline, and cancelled at up to 4 PRNG-chosen boundary instants of the un-cancelled run's wire events; virtual time; non-trivial = the un-cancelled run made at least 2 RPCs and at least one cancelled run was cut short; distinct by (operation, shape, behaviour mix, cancel instants)",
+		Rule:    "FullRT over a simulated network (1-40 crawled peers; 0-100% failing: dead, request error, silent until the 10 s read timeout, 30 s late, dial failure, 20 s dial stall; 0-100% of the connections dropped after the crawl so that operations dial; K in {1,2,3,5,8,20}, success wait fraction in {0.1,0.3,0.5,1}, per-operation timeout 0.5/5 s, bulk parallelism 1/2/20); one operation per case out of GetClosestPeers, FindPeer (found / unknown), GetValue / SearchValue (quorum option in {0,1,2,5,K}: the search may end by quorum while answers are still arriving), FindProviders, FindProvidersAsync(count), PutValue, Provide, ProvideMany, PutMany (1-30 keys); run un-cancelled, then on fresh instances: cancelled before the call, with a deadline, and cancelled at up to 4 PRNG-chosen boundary instants of the un-cancelled run's wire events; SearchValue / FindProvidersAsync additionally 3 times with a consumer that stops reading when its context ends, cancelled exactly at a boundary instant; virtual time; non-trivial = the un-cancelled run made at least 2 RPCs and at least one cancelled run was cut short; distinct by (operation, shape, behaviour mix, cancel instants)",
 		Clauses: []string{"no-panic", "returns-after-last-rpc", "returns-after-cancel", "returns-within-30min", "background-ends", "close-ends-all"}},
 		func(c *vh.Case) {
 			sc := vC03Gen(c)
@@ -304,6 +336,18 @@ func TestVerif_C03_fullrt(t *testing.T) {
 						}
 					}
 					modes = append(modes, fmt.Sprintf("c%v", at))
+				}
+				// channel operations once more with a consumer that walks away when its context ends, cancelled exactly
+				// at boundary instants (an answer being handed over at that very moment must not wedge anything)
+				if sc.Op == "SearchValue" || sc.Op == "FindProvidersAsync" {
+					for j := 0; j < 3 && len(offs) > 0; j++ {
+						at := offs[c.R.Intn(len(offs))]
+						if r := vC03Exec(t, c, sc, "abandon", at); r != nil && r.Panic != nil {
+							return
+						}
+						c.Obs("abandoning_consumer_runs", 1)
+						modes = append(modes, fmt.Sprintf("a%v", at))
+					}
 				}
 			})
 			c.Set("cancel_instants", modes)
